@@ -58,13 +58,46 @@ N_QUICK, N_THOROUGH = 150, 1500
 
 
 def gxx_view(c: Case):
-    """(per-event outcomes, job outcomes per event) as g++ ran them, when the g++ oracle was attached"""
+    """(per-event outcomes, job outcomes per event, rows of the reversed job) as g++ ran them, when the g++ oracle was attached"""
     o = getattr(c, "gxx_job", None)
     if o is None:
         return None
     per = list(c.gxx_exec)
     job = [cgroup.gxx_outcome(o, i) for i in range(len(c.events))]
-    return per, job
+    rv = getattr(c, "gxx_rev", None)
+    rev = [cgroup.gxx_outcome(rv, i) for i in range(len(c.events))] if rv is not None else None
+    return per, job, rev
+
+
+def judge_gxx(ctx, c: Case, how: str) -> bool:
+    """job vs per-event vs reversed job on the REAL text (per-event method body as rendered by the template),
+    compiled with g++ against the mock event data model; the mock's job continues after a fault, so the comparison
+    is event by event. Returns True if a violation was reported."""
+    gv = gxx_view(c)
+    if gv is None:
+        return False
+    gper, gjob, grev = gv
+    if any(cgroup.fault_class(x) == "does-not-compile" for x in gper + gjob):
+        ctx.count("g++:does-not-compile (C02's clause)")
+        return False
+    nrun = len((c.gxx_job or {}).get("events", []))  # the job ends at the first faulting event
+    for i, (p, j) in enumerate(list(zip(gper, gjob))[:nrun]):
+        if cgroup.fault_class(p) != cgroup.fault_class(j) or not cgroup.rows_num_eq(p.get("num", []), j.get("num", [])):
+            ctx.violation(
+                key="job:" + c.key(),
+                what=f"event {i} writes different rows inside one job than alone (g++ run of the emitted code: state carried across events)",
+                case=c.to_json(),
+                observed={"event": i, "in_job": j, "alone": p, "body": c.result["query"]},
+                how=how + " (compiled with g++ against tools/cppmock.py)",
+            )
+            return True
+    if grev is not None and not any("fault" in x for x in gper):
+        fwd = sorted(json_key(r) for j in gjob for r in j.get("num", []))
+        rev = sorted(json_key(r) for j in grev for r in j.get("num", []))
+        if fwd != rev:
+            ctx.violation(key="perm:" + c.key(), what="processing the events in reverse order gives a different multiset of rows (g++ run)", case=c.to_json(), observed={"forward": gjob, "reverse": grev, "body": c.result["query"]}, how=how)
+            return True
+    return False
 
 
 def judge(ctx, c: Case, c_rev: Case):
@@ -74,33 +107,10 @@ def judge(ctx, c: Case, c_rev: Case):
     per = a["exec"]
     job = a["job"]
     how = "translate `source` (with the synthetic metadata of tools/qgen.py) on `backend`; run the emitted per-event code over `events` in one job and one event at a time"
-    gv = gxx_view(c)
-    if gv is not None:
-        # the Lean semantics cannot interpret this program (unrecognised statement): the real text is compiled
-        # with g++ against the mock event data model and run both ways (the mock's job continues after a fault,
-        # so the comparison is event by event)
-        ctx.count("decided-by:g++(job vs per-event)")
-        gper, gjob = gv
-        if any(cgroup.fault_class(x) == "does-not-compile" for x in gper + gjob):
-            ctx.count("g++:does-not-compile (C02's clause)")
+    if gxx_view(c) is not None:
+        ctx.count("decided-by:g++(job vs per-event)" if cgroup.needs_gxx(c) else "g++:also-run(job vs per-event)")
+        if judge_gxx(ctx, c, how) or cgroup.needs_gxx(c):
             return
-        for i, (p, j) in enumerate(zip(gper, gjob)):
-            if cgroup.fault_class(p) != cgroup.fault_class(j) or not cgroup.rows_num_eq(p.get("num", []), j.get("num", [])):
-                ctx.violation(
-                    key="job:" + c.key(),
-                    what=f"event {i} writes different rows inside one job than alone (g++ run of the emitted code: state carried across events)",
-                    case=c.to_json(),
-                    observed={"event": i, "in_job": j, "alone": p, "body": c.result["query"]},
-                    how=how + " (compiled with g++ against tools/cppmock.py)",
-                )
-                return
-        gr = gxx_view(c_rev)
-        if gr is not None:
-            fwd = sorted(json_key(r) for j in gjob for r in j.get("num", []))
-            rev = sorted(json_key(r) for j in gr[1] for r in j.get("num", []))
-            if fwd != rev:
-                ctx.violation(key="perm:" + c.key(), what="processing the events in reverse order gives a different multiset of rows (g++ run)", case=c.to_json(), observed={"forward": gjob, "reverse": gr[1], "body": c.result["query"]}, how=how)
-        return
     # a variable read before anything was assigned to it in this event: its value is whatever an earlier event
     # (or the stack) left there — the modelled semantics has no value for it
     for i, r in enumerate(per):
@@ -155,12 +165,17 @@ def json_key(r):
     return json.dumps(r)
 
 
-def attach(cases, revs):
-    """g++ oracle for the programs the Lean semantics cannot interpret"""
-    need = [(c, r) for c, r in zip(cases, revs) if c.result and c.result.get("ok") and cgroup.needs_gxx(c)]
-    if need:
-        cgroup.attach_gxx([c for c, _ in need], per_event=True, job=True)
-        cgroup.attach_gxx([r for _, r in need], per_event=False, job=True)
+def attach(cases, revs, ctx=None, sample=0):
+    """g++ oracle: for the programs the Lean semantics cannot interpret, plus (`sample` > 0) a sample of the others —
+    rows with vector columns next to First first — because only g++ runs the per-event method body as the TEMPLATE
+    renders it (a try/catch or an early return around the generated statements is invisible to the parsed body)."""
+    ok = [c for c in cases if c.result and c.result.get("ok") and c.answer and "bad" not in c.answer]
+    need = [c for c in ok if cgroup.needs_gxx(c)]
+    rest = [c for c in ok if c not in need]
+    rest.sort(key=lambda c: 0 if ("First" in cgroup.qgen.ops_used(c.query) and c.form == "select") else 1)
+    extra = rest if (ctx is not None and ctx.tier == "thorough") else rest[:sample]
+    if need or extra:
+        cgroup.attach_gxx(need + extra, per_event=True, job=True, rev=True)
 
 
 def gen_cases(ctx, n):
@@ -181,7 +196,7 @@ def run_stream(ctx, cases, stream):
         revs.append(r)
     cgroup.run_cases(ctx, cases, with_query=True)
     cgroup.run_cases(ctx, revs, with_query=False)
-    attach(cases, revs)
+    attach(cases, revs, ctx, sample=30 if stream == "generated" else 0)
     for c, r in zip(cases, revs):
         ctx.count(f"stream:{stream}")
         if not c.result["ok"]:
